@@ -17,32 +17,44 @@ def _tok(line):
     return Token(GherkinLine(line, 1), {"line": 1})
 
 
+def _fenced(dialect):
+    """a matcher that has been shown the opening line of a fenced block (the statement is about the line, whatever the matcher saw before)"""
+    tm = GherkinInMarkdownTokenMatcher(dialect)
+    try:
+        tm.match_DocStringSeparator(_tok("```\n"))
+    except Exception:  # noqa: BLE001
+        pass
+    return tm
+
+
 def _kw_chunk(cases):
     bad = []
     tms = {}
     for c in cases:
-        tm = tms.setdefault(c["d"], GherkinInMarkdownTokenMatcher(c["d"]))
-        line = uncp(c["line"])
-        if c["ok"]:
-            t = _tok(line)
-            try:
-                ok = getattr(tm, METHOD[c["type"]])(t)
-                got = (ok, t.matched_type, t.location.get("column"), t.matched_keyword, t.matched_text) if ok else (False,)
-            except Exception as e:  # noqa: BLE001
-                got = ("exception", repr(e))
-            exp = (True, c["type"], c["col"], uncp(c["kw"]), uncp(c["text"]))
-            if got != exp:
-                bad.append(dict(dialect=c["d"], line=line, spec=exp, impl=got))
-        else:
-            # not recognised as ANY keyword or step line
-            for m in (TITLE_METHODS if c["kind"] == "title" else ["match_StepLine"]):
+        for state in ("fresh", "after an opening fence"):
+            tm = tms.setdefault((c["d"], state), GherkinInMarkdownTokenMatcher(c["d"]) if state == "fresh" else _fenced(c["d"]))
+            line = uncp(c["line"])
+            if c["ok"]:
                 t = _tok(line)
                 try:
-                    ok = getattr(tm, m)(t)
+                    ok = getattr(tm, METHOD[c["type"]])(t)
+                    got = (ok, t.matched_type, t.location.get("column"), t.matched_keyword, t.matched_text) if ok else (False,)
                 except Exception as e:  # noqa: BLE001
-                    ok = "exception " + repr(e)
-                if ok:
-                    bad.append(dict(dialect=c["d"], line=line, spec="not recognised", impl=f"{m} -> {ok}"))
+                    got = ("exception", repr(e))
+                exp = (True, c["type"], c["col"], uncp(c["kw"]), uncp(c["text"]))
+                if got != exp:
+                    bad.append(dict(dialect=c["d"], line=line, spec=exp, impl=got, matcher=state))
+                    break
+            else:
+                # not recognised as ANY keyword or step line
+                for m in (TITLE_METHODS if c["kind"] == "title" else ["match_StepLine"]):
+                    t = _tok(line)
+                    try:
+                        ok = getattr(tm, m)(t)
+                    except Exception as e:  # noqa: BLE001
+                        ok = "exception " + repr(e)
+                    if ok:
+                        bad.append(dict(dialect=c["d"], line=line, spec="not recognised", impl=f"{m} -> {ok}", matcher=state))
     return bad
 
 
@@ -63,21 +75,23 @@ def keywords(timeout=3000):
 
 def _rows_chunk(cases):
     bad = []
-    tm = GherkinInMarkdownTokenMatcher("en")
+    tms = {"fresh": GherkinInMarkdownTokenMatcher("en"), "after an opening fence": _fenced("en")}
     for c in cases:
         line = uncp(c["line"])
-        t = _tok(line)
-        try:
-            if c["kind"] == "row":
-                ok = tm.match_TableRow(t)
-            else:
-                ok = tm.match_TagLine(t)
-            got = (True, [(i["column"], i["text"]) for i in t.matched_items]) if ok else (False, [])
-        except Exception as e:  # noqa: BLE001
-            got = ("exception", repr(e))
-        exp = (c["ok"], [(i["col"], uncp(i["text"])) for i in c["items"]])
-        if got != exp:
-            bad.append(dict(kind=c["kind"], line=line, spec=exp, impl=got))
+        for state, tm in tms.items():
+            t = _tok(line)
+            try:
+                if c["kind"] == "row":
+                    ok = tm.match_TableRow(t)
+                else:
+                    ok = tm.match_TagLine(t)
+                got = (True, [(i["column"], i["text"]) for i in t.matched_items]) if ok else (False, [])
+            except Exception as e:  # noqa: BLE001
+                got = ("exception", repr(e))
+            exp = (c["ok"], [(i["col"], uncp(i["text"])) for i in c["items"]])
+            if got != exp:
+                bad.append(dict(kind=c["kind"], line=line, spec=exp, impl=got, matcher=state))
+                break
     return bad
 
 
